@@ -28,3 +28,14 @@ func plus(a, b string) string {
 	}
 	return "(+ " + a + " " + b + ")"
 }
+
+// slot is the position of element i of a slice with offset off inside its backing row. It is
+// written with the function `at` (defined as off + i by an axiom with a pattern) rather than
+// with `+`, so that quantified facts about slice elements keep a stable trigger term: solvers
+// flatten and cancel arithmetic, which silently breaks patterns containing (+ off i).
+func slot(off, i string) string {
+	if off == "0" {
+		return i
+	}
+	return "(at " + off + " " + i + ")"
+}
